@@ -34,6 +34,8 @@ type C20Queue struct {
 	Consumers      [][]int `json:"consumers"` // per consumer: yield codes, cycled
 	CloseYield     int     `json:"close_yield"`
 	ConsumersFirst bool    `json:"consumers_first"`
+	// DrainBeforeClose: the closer waits until every accepted item has been delivered
+	DrainBeforeClose bool `json:"drain_before_close"`
 }
 
 func yield(code int) {
@@ -79,6 +81,7 @@ func c20CheckQueue(c C20Queue) *pbt.Violation {
 	}
 	var prodWG, consWG sync.WaitGroup
 	var blockedFirst int32
+	var accepted, delivered int64
 	startConsumers := func() {
 		for ci, ys := range c.Consumers {
 			consWG.Add(1)
@@ -90,6 +93,9 @@ func c20CheckQueue(c C20Queue) *pbt.Violation {
 					}
 					out := record(100+ci, fifo.Op{Kind: "pull"}, func() fifo.Out {
 						v, ok := q.Pull()
+						if ok {
+							atomic.AddInt64(&delivered, 1)
+						}
 						return fifo.Out{V: v, OK: ok}
 					})
 					if !out.OK {
@@ -107,7 +113,13 @@ func c20CheckQueue(c C20Queue) *pbt.Violation {
 				for seq, y := range ys {
 					yield(y)
 					v := pi*10000 + seq
-					record(pi, fifo.Op{Kind: "push", V: v}, func() fifo.Out { return fifo.Out{V: v, OK: q.Push(v)} })
+					record(pi, fifo.Op{Kind: "push", V: v}, func() fifo.Out {
+						ok := q.Push(v)
+						if ok {
+							atomic.AddInt64(&accepted, 1)
+						}
+						return fifo.Out{V: v, OK: ok}
+					})
 				}
 			}(pi, ys)
 		}
@@ -128,6 +140,22 @@ func c20CheckQueue(c C20Queue) *pbt.Violation {
 	case <-prodDone:
 	case <-time.After(20 * time.Second):
 		return pbt.V("c20.queue.push-blocks", "Push returns promptly (the bounded queue refuses rather than blocks)", "producers still running after 20 s (%s cap %d)", c.Kind, c.Cap)
+	}
+	// Every accepted item must reach a consumer WITHOUT the help of Close: the consumers loop on
+	// Pull, so once the producers are done the queue has to drain (a consumer parked in Pull that
+	// is not woken by an arriving item stays parked until Close broadcasts).
+	if c.DrainBeforeClose {
+		deadline := time.Now().Add(15 * time.Second)
+		for atomic.LoadInt64(&delivered) < atomic.LoadInt64(&accepted) {
+			if time.Now().After(deadline) {
+				buf := make([]byte, 1<<16)
+				buf = buf[:runtime.Stack(buf, true)]
+				return pbt.V("c20.queue.lost-wakeup", "a blocked consumer is always woken when an item arrives",
+					"15 s after the last Push returned, %d of %d accepted items are still undelivered although %d consumers are pulling (%s cap %d)\n%s",
+					atomic.LoadInt64(&accepted)-atomic.LoadInt64(&delivered), atomic.LoadInt64(&accepted), len(c.Consumers), c.Kind, c.Cap, clipStack(buf))
+			}
+			time.Sleep(100 * time.Microsecond)
+		}
 	}
 	yield(c.CloseYield)
 	record(999, fifo.Op{Kind: "close"}, func() fifo.Out { q.Close(); return fifo.Out{OK: true} })
@@ -256,6 +284,7 @@ var c20Queue = pbt.Register(pbt.Prop[C20Queue]{
 		}
 		c.CloseYield = rapid.IntRange(0, 5).Draw(t, "closeyield")
 		c.ConsumersFirst = rapid.Bool().Draw(t, "consumersfirst")
+		c.DrainBeforeClose = rapid.Bool().Draw(t, "drainfirst")
 		return c
 	},
 	Check: c20CheckQueue,
